@@ -137,6 +137,17 @@ CHECKS.update({
         design_ref="6/C16"),
 })
 
+CHECKS.update({
+    "C11": dict(
+        text="The array branches of b_o_Standing, solution_gor_Standing, the Spivey compressibility and the water correlations are regenerated "
+             "from the source in elementwise form with every allocation dtype and store-time cast explicit; theorems: for every dtype "
+             "(int32/int64/float32/float64) and every length (0 included) the array result is (floating dtype, map of the scalar function), on "
+             "both sides of p_b and at it, uninitialised memory is never observed. The elementwise reading of masked stores is the theorem "
+             "masked_partition. The implementation is run on the dtype x layout matrix and compared element-wise with scalar calls.",
+        technique="Coq proof over py2coq-translated array branches with an explicit numpy dtype/cast model + dtype-matrix differential test",
+        design_ref="6/C11"),
+})
+
 NOT_APPLICABLE = {}
 
 
